@@ -3,7 +3,7 @@
 worktree of the repository, runs its test suite and the check, reverts.  Informational only; never
 run by the registered commands.
 
-  tools/rehearse_c06.py <repo worktree> [name prefix ...]      -> evidence/rehearsal-C06.json
+  tools/rehearse_c06.py <repo worktree> [name prefix ...]      -> checks/C06.rehearsal.json
 """
 import subprocess, os, sys, json
 
@@ -115,7 +115,7 @@ def sh(cmd, cwd, timeout=3600):
 
 
 def main():
-    out_path = os.path.join(VW, 'evidence', 'rehearsal-C06.json')
+    out_path = os.path.join(VW, 'checks', 'C06.rehearsal.json')
     prev = json.load(open(out_path)) if os.path.exists(out_path) and ONLY else {}
     clean = prev.get('clean_tree', [])
     if not ONLY:
